@@ -67,8 +67,8 @@ func Check() *core.Check {
 	}
 }
 
-// numPinned must equal len(pinned) (pinned.go: 5 regression witnesses + 3 known-finding witnesses appended in init).
-const numPinned = 8
+// numPinned must equal len(pinned) (pinned.go: 6 regression witnesses + 4 known-finding witnesses appended in init).
+const numPinned = 10
 
 // try-stack depth dimension (see run): extra enclosing try/finally levels; nesting inside return() / finally blocks;
 // nesting inside next() (kept smaller: what next() has already pushed can no longer grow the stack in return())
@@ -245,6 +245,10 @@ func run(c *core.Ctx) core.Result {
 				st.Inc(fmt.Sprintf("try_depth:return()=%d", tdr))
 			}
 		}
+		if goForOfReturnOverrideKnown && goForOfReturnOverride(prog) {
+			st.Inc("excluded:go_forof_throwing_step_and_bad_return")
+			continue
+		}
 		exitID := 0
 		if ins != nil {
 			exitID = ins.ID
@@ -298,6 +302,25 @@ func run(c *core.Ctx) core.Result {
 	return res
 }
 
+// Known finding C08-goapi-forof-return-replaces-body-exception (inbox C08-goapi-forof-return-throw-replaces-body-exception.md):
+// Runtime.ForOf let a throwing / non-object return() replace the exception of the Go step callback. FIXED in /repo 4ec883b:
+// the exclusion is switched off (kept only as a switch should the defect return); the pinned witness stays.
+const goForOfReturnOverrideKnown = false
+
+func goForOfReturnOverride(p *ctlref.Program) bool {
+	bad := false
+	for _, b := range p.Bodies() {
+		ctlref.Walk(b, func(n *ctlref.Node) {
+			// (a generator's return() throws whenever one of its pending finally blocks does: not decidable from the
+			// consumer, so throwing callbacks over generators are left to the pinned witness until the merge)
+			if n.Kind == ctlref.GoForOf && n.Op >= 2 && (n.Iter.Gen > 0 || n.Iter.Ret == ctlref.RetThrows || n.Iter.Ret == ctlref.RetBad) {
+				bad = true
+			}
+		})
+	}
+	return bad
+}
+
 func refReaches(p *ctlref.Program, exitID int) bool {
 	ref := ctlref.Run(p, ctlref.ModeFunction)
 	pat := fmt.Sprintf(" %d @", exitID)
@@ -332,7 +355,7 @@ func observe(st *core.Stats, in *instance, er *engineRun) bool {
 			tag = e[:i]
 		}
 		switch tag {
-		case "F", "C", "T+", "Ro", "Rt", "Rb", "Nv", "Nd", "Nt", "Nb", "Y", "D<", "G+", "I":
+		case "F", "C", "T+", "Ro", "Rt", "Rb", "Nv", "Nd", "Nt", "Nb", "Y", "D<", "G+", "I", "GS", "GX":
 			st.Inc("events:" + tag)
 		}
 		switch in.v.What {
@@ -350,6 +373,8 @@ func observe(st *core.Stats, in *instance, er *engineRun) bool {
 				reached = reached || tag == "Rt" || tag == "Rb" || tag == "Ro" || in.v.Value == ctlref.RetNone
 			case "At":
 				reached = reached || tag == "MF" || tag == "AD" || tag == "SX"
+			case "GoOp":
+				reached = reached || tag == "GX"
 			case "Pairs":
 				reached = true
 			}
